@@ -35,7 +35,7 @@ REGISTRY = {}
 
 def register(cls):
     inst = cls()
-    REGISTRY[inst.target] = inst
+    REGISTRY[getattr(inst, "key", None) or inst.target] = inst
     return cls
 
 
